@@ -1,7 +1,7 @@
 /-
 C12 — Runtime lifecycle: exclusive accept, shutdown always completes, restart possible.
 -/
-import CobaldVerif.Lemmas.RuntimeInv
+import CobaldVerif.Lemmas.RuntimeProgress
 
 namespace Cobald.Props.C12
 open Cobald Cobald.Runtime
@@ -62,6 +62,24 @@ theorem shutdown_returns (s : St) (r : Res) (hc : s.gather = .completed) (h : (s
     · simp at h
   · simp at h
 
+/-- **shutdown always completes**: after a stop request, once the coroutine payloads have unwound
+(they can: `C02.cancellation_deliverable`), at most 8 closing steps end the run call - by a normal
+return when no failure had been recorded (`clean`), whatever thread payloads are doing -/
+theorem shutdown_completes (s : St) (hr : Reach s) (hup : s.phase = .up) (hstop : s.stopReq = true) (hq : s.coQuiet) :
+    (∃ es s' r, (es.all Ev.closingEv = true) ∧ run s es = some s' ∧ s'.phase = .ended r ∧ es.length ≤ 8) ∧
+    (s.clean → ∃ es s', (es.all Ev.closingEv = true) ∧ run s es = some s' ∧ s'.phase = .ended .returned ∧ es.length ≤ 8) :=
+  ⟨closing_terminates s hr hup (Or.inl hstop) hq, fun hcl => closing_returns s hr hup (Or.inl hstop) hq hcl⟩
+
+/-- a KeyboardInterrupt has the same effect -/
+theorem interrupt_completes (s : St) (hr : Reach s) (hup : s.phase = .up) (hi : s.gather = .interrupted) (hq : s.coQuiet) :
+    ∃ es s' r, (es.all Ev.closingEv = true) ∧ run s es = some s' ∧ s'.phase = .ended r ∧ es.length ≤ 8 :=
+  closing_terminates s hr hup (Or.inr (by simp [hi])) hq
+
+/-- shutdown() on a runner that is not running (before accept, after the run has ended in any
+way) returns at once and changes nothing -/
+theorem shutdown_idle (s : St) (h : s.phase.restartable = true) : step s .shutdownCall = some s := by
+  cases hp : s.phase <;> simp_all [step, Phase.restartable]
+
 /-! ### non-vacuity: accept, rejected concurrent accept, shutdown, accept again -/
 
 def trace : List Ev :=
@@ -69,5 +87,9 @@ def trace : List Ev :=
    .rtaskEnd .aio, .rtaskEnd .trio, .rtaskEnd .thr, .gatherDone, .endRun .returned, .acceptBegin 1, .launch]
 example : ((run St.init trace).map (fun s => (s.phase, s.guard))) = some (.up, some 1) := by decide +kernel
 example : (run St.init (trace.take 3 ++ [.acceptBegin 1])).isNone = true := by decide +kernel
+
+-- the hypotheses of `shutdown_completes` hold right after the stop request
+example : ((run St.init (trace.take 5)).map (fun s => (s.phase, s.stopReq, decide s.coQuiet))) = some (.up, true, true) := by
+  decide +kernel
 
 end Cobald.Props.C12
